@@ -269,13 +269,13 @@ PROPS = {
     },
     "C18": {
         "level": "proof",
-        "claim": "A Lean 4 reference semantics of yaotl expressions and templates (`Hx.eval`: literals, variables, exact integer arithmetic, comparison, equality across types, logic without short-circuit, conditionals with result-type unification and typed unknowns, tuple / object construction, index, attribute access, splats (null, scalars / objects / maps as a sequence of one, per-element traversal), for-expressions (key variable, filters, object results, grouping, duplicate and null keys, iteration order of objects and maps), templates with interpolation, the single-interpolation pass-through, strip markers, %{ if } and %{ for } directives, plain and flush heredocs) with theorems for ALL operands: arithmetic and comparison are exact (add_exact … ge_exact, no wrap-around), equality across types is false and never an error, ill-typed operands / unknown names / missing attributes / out-of-range indexes yield an error and an operand's error is never dropped (arith_on_bool_is_error … error_propagates), the conditional returns the chosen branch converted to the common type and reports inconsistent types (cond_true, cond_inconsistent_types), \"${x}\" is x itself; flush heredocs: a line that starts with an interpolation pins the cut to 0 and the text is kept as written, the cut never exceeds a counted line's indentation (Flush.interp_at_line_start_pins_zero, Flush.flush_cuts_blanks_only). Precedence and associativity: a model of parseBinaryOps / the parenthesised term over atoms, operators and parentheses (Model/Prec.lean) with the theorem parse_spelling - EVERY spelling of an expression tree (the fewest parentheses the grammar needs, or any number of redundant ones) parses back to exactly that tree and consumes the input - its corollaries parse_print and spelling_unique, and the regenerated tie levels_as_modelled / recursion_as_modelled (the six operator groups of binaryOps and the `remaining` / `remaining` recursion of parseBinaryOps, Gen.HclOps). Correspondence: generated expression / template trees over generated variable environments, each printed with minimal and with redundant parentheses and whitespace, parsed by the real hclsyntax.ParseExpression and evaluated by Value(ctx); the syntax tree the real parser built must be the written tree (precedence, associativity, parentheses-independence) and the value or error must be what `Hx.eval` defines.",
-                "note": "Trusted: Lean kernel (propext/Classical.choice/Quot.sound), harness (tree printer, AST / value rendering, the split of a heredoc into the scanner's per-line literals) + driver. Numbers are integers in the model: non-integer quotients and infinities (x/0) are produced by the generator but not compared (`inexact`, also for a conditional with such a branch). Function calls, sets, unknown values, strip markers and directives inside heredocs are not modelled. The parser model (Model/Prec.lean) covers binary operators and parentheses over abstract atoms; the rest of the grammar (unary operators, traversals, conditional, templates, lexer) is decided by correspondence on every generated tree (parser's tree = written tree).",
+        "claim": "A Lean 4 reference semantics of yaotl expressions and templates (`Hx.eval`: literals, variables, exact integer arithmetic, comparison, equality across types, logic without short-circuit, conditionals with result-type unification and typed unknowns, tuple / object construction, index, attribute access, splats (null, scalars / objects / maps as a sequence of one, per-element traversal), for-expressions (key variable, filters, object results, grouping, duplicate and null keys, iteration order of objects and maps), templates with interpolation, the single-interpolation pass-through, strip markers, %{ if } and %{ for } directives, plain and flush heredocs, function calls: name lookup, the expanding final argument, arity, conversion of every argument to its parameter's type, null arguments) with theorems for ALL operands: arithmetic and comparison are exact (add_exact … ge_exact, no wrap-around), equality across types is false and never an error, ill-typed operands / unknown names / missing attributes / out-of-range indexes yield an error and an operand's error is never dropped (arith_on_bool_is_error … error_propagates), the conditional returns the chosen branch converted to the common type and reports inconsistent types (cond_true, cond_inconsistent_types), \"${x}\" is x itself; flush heredocs: a line that starts with an interpolation pins the cut to 0 and the text is kept as written, the cut never exceeds a counted line's indentation (Flush.interp_at_line_start_pins_zero, Flush.flush_cuts_blanks_only); function calls: an unknown name, a wrong number of arguments, an expanding argument that is not a sequence, a null or unconvertible argument anywhere make the call an error (Call.unknown_function_is_error, wrong_arity_is_error, expand_of_non_sequence_is_error, null_for_typed_parameter, bad_argument_is_error); a conditional takes a literal null to the other result's type and converts nothing when a type is unknown (condType_null_left, cond_null_chosen_is_typed, cond_unknown_type_passes_through). Precedence and associativity: a model of parseBinaryOps / the parenthesised term over atoms, operators and parentheses (Model/Prec.lean) with the theorem parse_spelling - EVERY spelling of an expression tree (the fewest parentheses the grammar needs, or any number of redundant ones) parses back to exactly that tree and consumes the input - its corollaries parse_print and spelling_unique, and the regenerated tie levels_as_modelled / recursion_as_modelled (the six operator groups of binaryOps and the `remaining` / `remaining` recursion of parseBinaryOps, Gen.HclOps). Correspondence: generated expression / template trees over generated variable environments, each printed with minimal and with redundant parentheses and whitespace, parsed by the real hclsyntax.ParseExpression and evaluated by Value(ctx); the syntax tree the real parser built must be the written tree (precedence, associativity, parentheses-independence) and the value or error must be what `Hx.eval` defines.",
+                "note": "Trusted: Lean kernel (propext/Classical.choice/Quot.sound), harness (tree printer, AST / value rendering, the split of a heredoc into the scanner's per-line literals) + driver. Numbers are integers in the model: non-integer quotients and infinities (x/0) are produced by the generator but not compared (`inexact`, also for a conditional with such a branch). The four functions of the evaluation context are the harness's own (add2, neg1, cat, pick: fixed, variadic, dynamically typed), modelled in Lean; cty's primitive conversions (string to number / bool, number / bool to string) are modelled for plain integers, other numeric spellings are not compared. Sets, unknown values, strip markers and directives inside heredocs are not modelled. The parser model (Model/Prec.lean) covers binary operators and parentheses over abstract atoms; the rest of the grammar (unary operators, traversals, conditional, templates, lexer) is decided by correspondence on every generated tree (parser's tree = written tree).",
         "technique": "Lean 4 proof (clauses of the reference semantics for all operands) + correspondence of the real parser and evaluator against the reference semantics on generated trees in two spellings",
         "gen": ["HclOps"],
         "n": {"quick": 6000, "thorough": 80000},
         "seeds_thorough": 3,
-        "rule": "trees of depth 2-5 from one PRNG: number-typed (all five arithmetic operators, negation, conditionals, indexing, attribute access; operands 0-49 and boundary values up to 30 digits), boolean-typed (logic, comparison, equality of arbitrary operands, negation), templates (1-3 parts of literals and interpolations of any type) and loosely typed ones (null, tuples, objects, missing variables / attributes, ill-typed operands, conditionals mixing number / bool / string / null branches), collection expressions (full and attribute splats with traversals, over tuples of objects, tuples, objects, list- and map-typed values, scalars and null; tuple and object for-expressions with or without the key variable, filters, grouping - type-directed, 1 in 5 deliberately loose), template directives (%{ if / else }, %{ for } with one or two variables, inside quoted templates), heredocs (plain / flush, 0-4 lines with own indentation of blanks / tabs / U+00A0, blank lines, lines that start with an interpolation, nested heredocs, indented closing marker) and exact arithmetic over literals that together need more than 64 bits; environment of 11 variables with random values (incl. a list-typed and a map-typed one); every tree printed twice (minimal / redundant parentheses and blanks); distinct by input text",
+        "rule": "trees of depth 2-5 from one PRNG: number-typed (all five arithmetic operators, negation, conditionals, indexing, attribute access; operands 0-49 and boundary values up to 30 digits), boolean-typed (logic, comparison, equality of arbitrary operands, negation), templates (1-3 parts of literals and interpolations of any type) and loosely typed ones (null, tuples, objects, missing variables / attributes, ill-typed operands, conditionals mixing number / bool / string / null branches), collection expressions (full and attribute splats with traversals, over tuples of objects, tuples, objects, list- and map-typed values, scalars and null; tuple and object for-expressions with or without the key variable, filters, grouping - type-directed, 1 in 5 deliberately loose), template directives (%{ if / else }, %{ for } with one or two variables, inside quoted templates), heredocs (plain / flush, 0-4 lines with own indentation of blanks / tabs / U+00A0, blank lines, lines that start with an interpolation, nested heredocs, indented closing marker), function calls (well-typed by result kind, in for / splat bodies, and 16 deliberately loose shapes: unknown names, too few / too many arguments, ill-typed and null arguments, numeric and boolean strings, expansion of tuples, lists, scalars, objects and null, out-of-range picks) and exact arithmetic over literals that together need more than 64 bits; environment of 11 variables with random values (incl. a list-typed and a map-typed one); every tree printed twice (minimal / redundant parentheses and blanks); distinct by input text",
         "trusted_base": COMMON_TB + ["go-cty value rendering (big.Float exact integer text)"],
         "assumptions": ["non-integer and infinite numbers are not compared"],
     },
